@@ -866,3 +866,38 @@ SPECS.append(disp_spec(
          ('saved_handling', lambda I: I.local('handling').t == I.st.ghost['HANDLING0'])],
     clause='_dispatcher: a completion request starts tracking (cause, effects = 1); every handler runs with _currently_handling = '
            'event; every return path, the cancelled one included, finishes the event through _eventDone'))
+
+
+# ============================================================================= C08: interrupts in handlers map to stop()
+def c08_iteration(I, how):
+    g = I.st.ghost
+    oc = g.get('HANDLER_OUTCOME')
+    stops = since(I, 'STOPS')
+    if oc == 1:
+        cover(I, 'kbint')
+        I.oblige('keyboard_interrupt_stops_the_manager', z3.BoolVal(len(stops) == 1 and len(stops[0]) == 0))
+    elif oc == 2:
+        cover(I, 'sysexit')
+        I.oblige('system_exit_stops_the_manager_with_its_code', z3.BoolVal(len(stops) == 1 and len(stops[0]) == 1 and stops[0][0] is g['EXIT_CODE']))
+    else:
+        I.oblige('no_stop_otherwise', z3.BoolVal(len(stops) == 0))
+
+
+def c08_post(I, outcome, ctx):
+    kind, v = outcome
+    g = I.st.ghost
+    if kind == 'raise':
+        cover(I, 'exit')
+        I.oblige('only_SystemExit_leaves_the_dispatcher', z3.BoolVal(v.cls == 'SystemExit' and g.get('HANDLER_OUTCOME') == 2), detail='escaping %s' % v.cls)
+        if v.cls == 'SystemExit':
+            stops = log(I, 'STOPS')
+            I.oblige('exit_code_went_through_stop', z3.BoolVal(bool(stops) and len(stops[-1]) == 1 and stops[-1][0] is g.get('EXIT_CODE')
+                                                               and v.args and v.args[0] is g.get('EXIT_CODE')))
+        return
+    cover(I, 'return')
+
+
+SPECS.append(disp_spec(
+    'C08', 'Manager._dispatcher[interrupts]', c08_post, iteration=c08_iteration, cover_=['return', 'kbint', 'sysexit', 'exit'],
+    clause='_dispatcher: KeyboardInterrupt in a handler calls stop(), SystemExit(code) calls stop(code) (whose SystemExit, if any, '
+           'is the only exception that leaves the dispatcher, carrying the same code)'))
